@@ -53,6 +53,9 @@ CLAIM = {
 }
 
 
+# rules of sibling properties that decide code on this property's own call path: the bridge name is inherited through BRemapper/super-class provider (C06)
+PREMISES = [("C06", ["R06.1", "R06.3", "R06.6"])]
+
 def run(F, R, tier):
     with open(SPEC) as f:
         spec = json.load(f)
